@@ -9,12 +9,14 @@ PROP = dict(
             dict(name="hs", pkg="internal/handshake", test="TestVerifC08Handshake", files=["mc/c08/hs/*.go"],
                  parts=["tokens", "tickets"]),
         ],
-        level_text="Bounded-exhaustive input enumeration against the real codecs of internal/wire, quicvarint and internal/handshake (in-package harness, no model/code gap): every byte string up to a length bound, a structured lattice of every frame type / header form / transport parameter with every field on the varint width boundaries, and every prefix and single-byte substitution of every encoding produced. The oracle is the property statement itself evaluated per input (no panic, reported length exact, Append == Length, decode(encode(x)) == x, decode(encode(decode(b))) == decode(b), listed RFC 9000 range violations rejected). Right level because the property quantifies over inputs, not over interleavings: the input space is enumerated, not sampled.",
-        level_note="Trusted: the harness' field-by-field equality on parsed values, its reference varint codec and the reference model that says which raw inputs contain a listed range violation. Not covered: byte strings longer than 3 that are not within one truncation/substitution of an encoding of a lattice value; ACK frames with more than 3 ranges; long-header payloads other than {0,1,63,64,16383-pnlen} bytes.",
+        level_text="Bounded-exhaustive input enumeration against the real codecs of internal/wire, quicvarint and internal/handshake (in-package harness, no model/code gap): every byte string up to a length bound, a structured lattice of every frame type / header form / transport parameter with every field on the varint width boundaries, the narrowing aliases of every field that has a range rule or is a length (v + k*2^w for w in {8,16,32} and the in-range values v next to the rule's edge, so that a range check evaluated after a conversion to uint8/uint16/uint32 is decided wrongly: transport parameters stream counts, ack_delay_exponent, max_ack_delay, active_connection_id_limit, max_udp_payload_size, connection ID parameter lengths; MAX_STREAMS/STREAMS_BLOCKED counts, RESET_STREAM_AT sizes, data/token/reason lengths 257 and 65537, raw length fields claiming 2^w + v), and every prefix and single-byte substitution of every encoding produced. The oracle is the property statement itself evaluated per input (no panic, reported length exact, Append == Length, decode(encode(x)) == x, decode(encode(decode(b))) == decode(b), listed RFC 9000 range violations rejected). Right level because the property quantifies over inputs, not over interleavings: the input space is enumerated, not sampled.",
+        level_note="Trusted: the harness' field-by-field equality on parsed values, its reference varint codec and the reference model that says which raw inputs contain a listed range violation. Not covered: byte strings longer than 3 that are not within one truncation/substitution of an encoding of a lattice value; numeric values other than the varint width boundaries, the edges of the range rules and their aliases modulo 2^8 / 2^16 / 2^32 (a check narrowed to another width, e.g. 24 bits, is not exercised); ACK frames with more than 3 ranges; long-header payloads other than {0,1,63,64,16383-pnlen} bytes.",
         technique="bounded-exhaustive input enumeration (explore.RunCases, one case = one chunk of the enumerated space) with a per-input reference oracle",
         deadline=dict(quick=90, thorough=1000),
         rule="every input of the stated finite spaces is executed on the real parsers/encoders; evaluations = inputs (byte strings or structured values) evaluated, transitions = calls into the real codecs, states = distinct outcome classes",
         assumptions=["re-encoding refusals that are explicit error returns (e.g. an empty STREAM frame without FIN) are not violations: the statement is silent about what the encoders may refuse",
                      "GetLength is not a length prediction for Retry packets (they have no Length/packet number fields); it is not checked for them",
-                     "decode(encode(x)) == x is demanded only for x inside the wire-representable domain (durations in whole wire units, offset+length <= 2^62-1, values the RFC allows)"],
+                     "decode(encode(x)) == x is demanded only for x inside the wire-representable domain (durations in whole wire units, offset+length <= 2^62-1, values the RFC allows)",
+                     "transport parameter values outside an RFC 9000 range that the statement does not list (max_ack_delay >= 2^14, active_connection_id_limit < 2, max_udp_payload_size < 1200) may be refused or accepted; if Unmarshal accepts the encoding Marshal produced for such a value, the result has to equal that value (second sentence of the statement) - acceptance as a different, e.g. narrowed, value is a violation",
+                     "rejection is demanded only for the listed rules: stream count > 2^60, ack_delay_exponent > 20, connection ID length > 20, duplicate / perspective-forbidden parameters, reliable size > final size; a STREAM frame longer than one packet buffer (1452 bytes) may be refused by the parser"],
     )
